@@ -22,17 +22,33 @@ class Watchdog(BaseException):
     """Raised by SIGALRM inside a worker: BaseException so library `except Exception` blocks cannot swallow it."""
 
 
+WATCHDOG_FIRED = False
+
+
 def _alarm(signum, frame):
+    # asyncio.Task stores a BaseException raised inside a coroutine step instead of propagating it, so the alarm
+    # also sets a flag the virtual loop polls, and re-arms itself until the execution is really abandoned.
+    global WATCHDOG_FIRED
+    WATCHDOG_FIRED = True
+    signal.setitimer(signal.ITIMER_REAL, 1.0)
     raise Watchdog('execution exceeded its wall-clock budget')
 
 
 def arm_watchdog(seconds):
+    global WATCHDOG_FIRED
+    WATCHDOG_FIRED = False
     signal.signal(signal.SIGALRM, _alarm)
     signal.setitimer(signal.ITIMER_REAL, seconds)
 
 
 def disarm_watchdog():
+    global WATCHDOG_FIRED
     signal.setitimer(signal.ITIMER_REAL, 0)
+    WATCHDOG_FIRED = False
+
+
+def watchdog_fired():
+    return WATCHDOG_FIRED
 
 
 def h64(obj):
